@@ -131,8 +131,19 @@ def parseLines (ls : List Bytes) : ParseResult :=
       | some a, some b => .ok ran a b
       | _, _ => .crash
 
-/-- what the parent makes of the child's complete stderr -/
-def parse (stderr : Bytes) : ParseResult := parseLines (splitLines stderr).1
+/-- an unterminated last line is used only as a header that announces no names (nothing can be
+missing from such a report) -/
+def parseTail (tail : Bytes) : ParseResult :=
+  match parseHeader tail with
+  | some (ran, nf, ne) => if nf.toNat + ne.toNat = 0 then .ok ran [] [] else .commError
+  | none => .commError
+
+/-- what the parent makes of the child's complete stderr: the first complete line that parses as a
+header decides; only when there is none (`for … else`) the unterminated rest is looked at -/
+def parse (stderr : Bytes) : ParseResult :=
+  match findHeader (splitLines stderr).1 with
+  | some _ => parseLines (splitLines stderr).1
+  | none => parseTail (splitLines stderr).2
 
 /-- `spawnFailed` = `subprocess.Popen` raised: an error is recorded for the layer -/
 def parentOutcome (spawnFailed : Bool) (stderr : Bytes) : ParseResult :=
